@@ -651,7 +651,7 @@ func (s Subtitles) WriteToWebVTT(o io.Writer) (err error) {
 
 func (l Line) webVTTBytes() (c []byte) {
 	if l.VoiceName != "" {
-		c = append(c, []byte("<v "+l.VoiceName+">")...)
+		c = append(c, []byte("<v "+strings.ReplaceAll(l.VoiceName, ">", "&gt;")+">")...) // a '>' would close the tag inside the name
 	}
 	for idx := 0; idx < len(l.Items); idx++ {
 		var previous, next *LineItem
